@@ -408,7 +408,7 @@ LABELS = [("chiral", "R"), ("chiral", "S"), ("tag", "x")]
 def case(draw, with_links=True, max_res=8, mixed_nrexcl=False, routes=("json", "json", "seq", "txt"),
          allow_itp=True, allow_replace=True, min_res=1, allow_dangling=True, link_bias=False,
          bonded_only=False, f22_safe=False, min_blocks=1, name_modes=("homo", "block", "random"),
-         explicit_links=False, removal_bias=False):
+         explicit_links=False, removal_bias=False, resname_mismatch=False):
     nblocks = draw(st.integers(min_blocks, 3))
     names = RESNAMES[:nblocks]
     blocks = []
@@ -418,7 +418,9 @@ def case(draw, with_links=True, max_res=8, mixed_nrexcl=False, routes=("json", "
     nonbond = not (f22_safe and "itp" in syntaxes)
     for name, syntax in zip(names, syntaxes):
         nrexcl = draw(st.integers(0, 4)) if mixed_nrexcl else base_excl
-        blocks.append(draw(block(name, nrexcl, syntax, nonbond_sections=nonbond)))
+        # a block may be called differently from the residue named in its atoms lines (block PEG, residue EO)
+        other = name + "x" if resname_mismatch and syntax == "ff" and draw(st.integers(0, 3)) == 0 else None
+        blocks.append(draw(block(name, nrexcl, syntax, nonbond_sections=nonbond, resname=other)))
     use_labels = draw(st.booleans())
     label_pool = LABELS if use_labels else []
     links = []
